@@ -14,7 +14,7 @@ let string_of_result = function
 let string_of_cres = function
   | CText l -> "T " ^ string_of_zlist l
   | COverflowError -> "OverflowError" | CValueError -> "ValueError"
-  | CUnicodeDecodeError -> "UnicodeDecodeError"
+  | CUnicodeDecodeError -> "UnicodeDecodeError" | CAbort -> "CRASH"
 let z = z_of_string
 let handle = function
   | ["fmt"; w; s; v; width; pad; fc] ->
